@@ -23,7 +23,7 @@ ASSUMPTIONS = ['bootloader protocol: 0x10 info, 0x12 mapping, 0x14 load buffer (
                'a retransmitted write-flash command re-executes the same copy (idempotent)']
 REQUIRED = ['mon.flashes_completed', 'mon.images_compared', 'mon.load_buffer_packets', 'mon.too_large_refused',
             'mon.reply_scripts', 'mon.aborted_after_failure', 'mon.page_override', 'mon.exact_multiples',
-            'mon.flashes_with_progress_callback']
+            'mon.flashes_with_progress_callback', 'mon.late_answer_then_failing_write']
 EXHAUSTIVE = {'quick': False, 'thorough': False}
 DESC_TIMEOUT = 1200
 
@@ -63,6 +63,7 @@ class Target:
         self.wcmds = []               # distinct write commands in order
         self.attempts = {}
         self.out = []
+        self.held = []
         self.bad = []
 
     def handle(self, header, data):
@@ -91,6 +92,9 @@ class Target:
             key = (bpage, fpage, count)
             if not self.wcmds or self.wcmds[-1] != key:
                 self.wcmds.append(key)
+            # an answer that was held back (action 'late') reaches the host now, ahead of the answer to this request
+            self.out.extend(self.held)
+            del self.held[:]
             ci = len(self.wcmds) - 1
             at = self.attempts.get(ci, 0)
             self.attempts[ci] = at + 1
@@ -110,6 +114,10 @@ class Target:
                     self.buffer[(bpage + k) * self.ps:(bpage + k + 1) * self.ps]
                 self.written.add(fpage + k)
             if action == 'drop':
+                return
+            if action == 'late':
+                # written, but the answer arrives after the host's receive window (slow page erase)
+                self.held.append(bytes([self.tid, 0x18, 1, 0]))
                 return
             self.out.append(bytes([self.tid, 0x18, 1, 0]))
         else:
@@ -327,5 +335,24 @@ def run(desc, ctx):
                         ctx.count('mon.reply_scripts')
                         flash_once(ctx, 0xFF, ps, bp, fp, sp, length, None, script, rnd, 'faults')
                         n += 1
+        # a late answer to one write command (its duplicate stays queued) followed by a failing next command
+        for ci in range(2):
+            for late_at in (0, 1):
+                for nxt in ('neg', 'drop_all', 'drop_request_all', 'drop_then_neg'):
+                    script = {(ci, late_at): 'late'}
+                    if late_at == 1:
+                        script[(ci, 0)] = 'drop'
+                    if nxt == 'neg':
+                        script[(ci + 1, 0)] = 'neg'
+                    elif nxt == 'drop_then_neg':
+                        script[(ci + 1, 0)] = 'drop_request'
+                        script[(ci + 1, 1)] = 'neg'
+                    else:
+                        for at in range(0, 8):
+                            script[(ci + 1, at)] = 'drop' if nxt == 'drop_all' else 'drop_request'
+                    ctx.count('mon.reply_scripts')
+                    ctx.count('mon.late_answer_then_failing_write')
+                    flash_once(ctx, 0xFF, ps, bp, fp, sp, length, None, script, rnd, 'late-then-fail')
+                    n += 1
         first = {'geometry': (ps, bp, fp, sp), 'image_length': length, 'reply_scripts': n}
     ctx.sample(first)
